@@ -356,10 +356,14 @@ def main():
                      "checker, burn amount 0-3), 6 scenes each + a DummySimulator run; a case is non-trivial when at least one scene needed "
                      "more than one iteration and (two or more random values are referenced only from requirements, or a property default "
                      "needs two or more properties, or the container is non-convex)")
+    import time
+    timing = c.cov.setdefault("timing_s", {})
+    t0 = time.time()
     common.ensure_parser()
     if not c.proofs():
         c.finish()
     exe = common.build_ocaml(PID)
+    timing["proofs+extraction"] = round(time.time() - t0, 1)
     quick = c.tier == "quick"
     rng = c.rng
     nprog, nseeds, nhosts, npersub, nshards = (18, 2, 3, 4, 5) if quick else (120, 3, 8, 3, 8)
@@ -398,14 +402,20 @@ def main():
             tasks.append(dict(name=p["name"], src=p["src"], names=p["names"], uprops=p.get("uprops", []), seed=seed, nscenes=6,
                               simulate=True, steps=4, maxIterations=3000, subs=subs_of(h)))
         try:
+            th = time.time()
             r = common.run_impl("impl_c15.py", dict(tasks=tasks), timeout=900 if quick else 2400, hashseed=hs,
                                 extra_env={"VERIF_VARIANT": str(variant)})
+            host_wall.append(round(time.time() - th, 1))
+            host_cpu.append(round(sum(x.get("t", 0) for row in r["results"] for x in row), 1))
             return r["results"]
         except Exception as e:
             return [[dict(crash=str(e)[-1500:]) for _ in subs_of(h)] for _ in idx]
 
+    host_wall, host_cpu = [], []
+    t0 = time.time()
     with cf.ThreadPoolExecutor(workers) as ex:
         host_results = list(ex.map(run, hosts))
+    timing.update(hosts_total=round(time.time() - t0, 1), host_wall=sorted(host_wall), host_time_in_runs=sorted(host_cpu), workers=workers)
     c.hist("fresh-interpreters", len(hosts))
 
     # ---- model predictions: specifier resolution order, dependency tuple, order of draws
